@@ -110,7 +110,7 @@ func TestC05(t *testing.T) {
 			c["kind"] = "prune"
 			yield(c)
 		}
-		for i, n := 0, vt.Pick(1500, 20000); i < n; i++ {
+		for i, n := 0, vt.Pick(1000, 20000); i < n; i++ {
 			c := c05Random(rnd)
 			c["kind"] = "prune"
 			yield(c)
@@ -125,7 +125,7 @@ func TestC05(t *testing.T) {
 				yield(c)
 			}
 		}
-		for i, n := 0, vt.Pick(150, 2000); i < n; i++ {
+		for i, n := 0, vt.Pick(100, 2000); i < n; i++ {
 			yield(c05RandomEndpoints(rnd))
 		}
 	}
